@@ -236,8 +236,8 @@ func ruleDispatch(c *Ctx) {
 			continue
 		}
 		// (b) validator table by partial evaluation
-		vo := fnOf(b.Lib, "validateOperation")
-		vp := fnOf(b.Lib, "validatePatch")
+		vo := b.roleFn("validateOperation")
+		vp := b.roleFn("validatePatch")
 		dp := fnOf(b.Lib, "DecodePatch")
 		if vo == nil || vp == nil || dp == nil {
 			l.add("R-DISPATCH", b.Name, "anchor validator", "", Undecided, "validateOperation/validatePatch/DecodePatch do not resolve", false)
@@ -1046,7 +1046,7 @@ func ruleMove(c *Ctx) {
 		destWhy := "the container that receives the value is not the result of a findObject call that runs after the remove (destination resolved against the document before removal)"
 		if ex, ok := a.Common().Value.(*ssa.Extract); ok {
 			if fc, ok := ex.Tuple.(*ssa.Call); ok {
-				if f := fc.Call.StaticCallee(); f != nil && f.Name() == "findObject" {
+				if b.isFindObjectCall(&fc.Call) {
 					if b.instrDominates(r, fc) {
 						destOK, destWhy = true, "findObject for the destination at "+b.posOf(fc)+" is dominated by the remove"
 					}
@@ -1068,7 +1068,7 @@ func ruleCopyIso(c *Ctx) {
 			continue
 		}
 		fn := ai.handlers["copy"]
-		dcFn := fnOf(b.Lib, "deepCopy")
+		dcFn := b.roleFn("deepCopy")
 		if dcFn == nil {
 			l.add("R-COPYISO", b.Name, "anchor deepCopy", "", Undecided, "deepCopy does not resolve", false)
 			continue
